@@ -63,7 +63,10 @@ def parseDump (timeout : Nat) (d : String) : Option St := do
   let ws ← parseList parseWorker ";" (← between d "W[" "]")
   let ps ← parseList parseP ";" (← between d "P[" "]")
   let gs ← parseList String.toNat? "," (← between d "G[" "]")
-  pure { workers := ws, placements := ps, groups := gs.map fun g => (g, []), timeout := timeout }
+  -- stored group statuses: `S[…]` lists the groups whose status is not Running (read by `reconcile` only;
+  -- not part of the compared dump)
+  let nr := (between d "S[" "]").bind (parseList String.toNat? ",") |>.getD []
+  pure { workers := ws, placements := ps, groups := gs.map fun g => (g, []), timeout := timeout, notRunning := nr }
 
 /-! ### operands -/
 
